@@ -313,6 +313,12 @@ def oracle(inp):
         return f"unexpected exception class (code {outcome})"
     if outcome == 3 and not (iosim.sx_tmo(T) is not None and iosim.sx_tmo(T) < 0):
         return "ValueError for a valid timeout"
+    if impl in (0, 1, 2) and all(a[2] == 0 for a in sscript):
+        # "within its time budget": before each wait at most what is left of T is requested (C11's statement, checked
+        # here too so that a send path that ignores the remaining timeout yields a failing input)
+        f = iosim.budget_failure(iosim.sx_tmo(T), out[2], [], selscript, None, outcome, "send")
+        if f:
+            return f
     return None
 
 
